@@ -273,6 +273,66 @@ def header_case(env, spec, st):
     st.sample({"spec": [str(x) for x in spec], "model": str(exp_res)})
 
 
+def small_x_point():
+    x = 1
+    while SECP.lift_x(x) is None:
+        x += 1
+    return SECP.lift_x(x)
+
+
+def smallx_case(env, case, st):
+    """Adversarial generator: H = (j*4^t*10^exp)^-1 * (P - k*G) for a curve point P with a tiny x coordinate, so that
+    the digit commitment of ring t (digit j, blinding k) IS the point P.  The proof is built twice: with the canonical
+    x (must verify) and with x+p written and hashed in its place (the specified verifier rejects x >= p; a verifier
+    that reduces mod p accepts, because the ring signature is valid for exactly those bytes)."""
+    L = env.L
+    exp, mantissa, t, v = case
+    Pt = small_x_point()
+    k = 0x1234567
+    rs = RP.ring_layout(mantissa)
+    rings, npub = len(rs), sum(rs)
+    scale = 10 ** max(exp, 0)
+    j = (v >> (2 * t)) & 3
+    assert j != 0 and t < rings - 1
+    coef = (j * scale) << (2 * t)
+    H = SECP.mul(pow(coef, -1, N), SECP.add(Pt, SECP.neg(SECP.mulG(k))))
+    gobj = buf(64)
+    if L.generator_parse(L.ctx, gobj, PD.generator_serialize(H)) != 1:
+        st.fail("generator_parse rejects a valid curve point", {"cfg": L.config})
+        return
+    secs = [5 + 2 * i for i in range(rings - 1)]
+    secs[t] = k
+    ks = [11 + 3 * i for i in range(rings)]
+    forged = [1 + (i % 3) for i in range(npub)]
+    for lab, ov in (("canonical-x", None), ("x+p", {t: b32(Pt[0] + P)}), ("x+2p" if Pt[0] + 2 * P < 2**256 else None, {t: b32((Pt[0] + 2 * P) % 2**256)})):
+        if lab is None:
+            continue
+        built = RP.prove(v * scale, BLIND, H, exp, mantissa, 0, secs, ks, forged, b"", digit_x_override=ov)
+        if built is None:
+            st.count("model-prover-no-proof")
+            continue
+        proof, commit = built
+        lay = RP.layout(proof)
+        if ov is None and i32(proof[lay["digits"][t]:lay["digits"][t] + 32]) != Pt[0]:
+            raise RuntimeError("construction failed: digit commitment is not the small-x point")
+        want = RP.verify(commit, proof, b"", H)
+        if (want is not None) != (ov is None):
+            raise RuntimeError("model: canonical proof must verify and the x+p proof must not")
+        cm = env.commit_obj(commit)
+        r, mn, mx = env.lib_verify(cm, proof, b"", gobj)
+        st.calls += 1
+        st.count("smallx-%s-%s" % (lab, "accept" if want else "reject"))
+        if want:
+            st.nt(case)
+        if (r == 1) != (want is not None) or (want and (mn, mx) != want):
+            st.fail("rangeproof_verify=%d on a proof whose digit commitment %d is encoded as %s (x = %d): specified verifier %s" % (r, t, lab, Pt[0], "accepts" if want else "rejects (x >= p)"),
+                    {"cfg": L.config, "exp": exp, "mantissa": mantissa, "ring": t, "encoding": lab, "proof": hx(proof), "commit": hx(PD.commitment_serialize(commit)), "generator": hx(PD.generator_serialize(H))})
+    if L.illegal or L.errors:
+        st.fail("callback fired", {"cfg": L.config})
+        L.cb_reset()
+    st.sample({"exp": exp, "mantissa": mantissa, "ring_with_small_x": t, "x": Pt[0], "encodings": ["x", "x+p"]})
+
+
 def info_case(env, b0, st):
     """rangeproof_info over every (byte0=b0, byte1) x min_value bytes x lengths"""
     L = env.L
@@ -323,6 +383,8 @@ def main():
                   rule="model-built proofs for exp {0,1,18} x mantissa 0..8 (thorough +63,64) x has_min x digit patterns (every signer position) with forged scalars 1..3; per proof: as-is, every ring scalar <- s+n / 0 / n / s+1, e0^1, digit x <- x+p / off-curve / p / 2^256-1, every sign bit and spare bit, header bits, mantissa byte, trailing / truncated lengths, other / negated commitment, other generator, extra-data changes, and every single-bit flip for the exp-0 proofs with mantissa <= 3 (thorough <= 8); model verifier decides; reported range compared")
         run_phase(run, "%s/lenient-header-proofs" % cfg, header_case, header_specs(), setup=setup(cfg),
                   rule="proofs whose ring signature is VALID for a header the specification forbids (exponent 19..31, reserved bit 7, min+max wrapping past 2^64, 2^mantissa*10^exp overflow): only a verifier with the exact header checks rejects them")
+        run_phase(run, "%s/noncanonical-digit-x" % cfg, smallx_case, [(0, 3, 0, 5), (0, 4, 0, 6), (1, 4, 0, 7), (0, 6, 1, 0b100110), (0, 6, 0, 0b100110), (2, 5, 1, 0b01101)], setup=setup(cfg),
+                  rule="proofs over an adversarially chosen generator for which one digit commitment is a curve point with x = 1..: built with the canonical x (accept) and with x+p written and hashed in its place (a VALID ring signature over non-canonical bytes; only the x < p check rejects it); exp in {0,1,2}, mantissa 3..6, ring 0 / 1")
         run_phase(run, "%s/info-total" % cfg, info_case, list(range(256)) if first or thorough else list(range(0, 256, 5)), setup=setup(cfg),
                   rule="rangeproof_info for EVERY (byte0, byte1) in 256^2 x 6 min_value encodings x 8 lengths against the header specification")
         if run.out_of_time():
